@@ -46,6 +46,10 @@ async def _noop():
     pass
 
 
+async def _sleep(d):
+    await (time + d)
+
+
 # --------------------------------------------------------------------------
 # the table: name -> async fn(c) calling c.mark('<seg>:s') / c.mark('<seg>:e') around each operation
 OPS = {}
@@ -480,6 +484,25 @@ async def _(c):
         await t
         c.mark('scope_finished_child:s')
     c.mark('scope_finished_child:e')
+    # children that never ran: cancelled before their first turn, volatile, due later
+    async with Scope() as s:
+        s.do(_noop()).cancel()
+        c.mark('scope_cancelled_child:s')
+    c.mark('scope_cancelled_child:e')
+    async with Scope() as s:
+        s.do(_noop()).cancel()
+        s.do(_noop()).cancel(1)
+        s.do(_sleep(5), volatile=True)
+        c.mark('scope_cancelled_children_and_volatile:s')
+    c.mark('scope_cancelled_children_and_volatile:e')
+    async with until(time + 100) as s:
+        s.do(_sleep(3), after=2).cancel()
+        c.mark('until_cancelled_delayed_child:s')
+    c.mark('until_cancelled_delayed_child:e')
+    async with Scope() as s:
+        s.do(_sleep(5), volatile=True)
+        c.mark('scope_volatile_only:s')
+    c.mark('scope_volatile_only:e')
 
 
 POSITIONS = ('root', 'child', 'until', 'lock', 'after_interrupt')
